@@ -125,7 +125,7 @@ def check_case(ctx, case):
 
 
 def run(ctx):
-    for k in range(ctx.n(14, 150)):
+    for k in range(ctx.n(30, 200)):
         check_case(ctx, krig.gen_case(ctx.rng, nobs=(8, 36) if ctx.tier == 'quick' else (8, 80)))
     ctx.lean.flush()
 
